@@ -1,13 +1,21 @@
 """C06: filters impose their constraints exactly and idempotently
-(spec/Filters.tla + FiltersLife.tla + FiltersMat.tla, harness/c06_filters.cpp)"""
-import os, json
+(spec/Filters.tla + FiltersLife.tla + FiltersMat.tla, harness/c06_filters.cpp;
+ life-cycle calls INTO an existing non-empty filter object: spec/FiltersInto.tla, harness/c06_into.cpp;
+ global filters on several MPI processes with shared dofs: lib/c06_global.py, spec/Gen_FilterGlobal.tla, harness/c06_gfilter.cpp)"""
+import os, json, re
 import vlib
+import c06_global
 
 LEVEL = "model_checking"
 
 VEC_INV = "FilterOK LifeCycleLaw ExactDomain ConstraintHolds ComplementHolds IdempotentHolds Emit"
 LC_ALL = ["none", "clone_deep", "clone_weak", "clone_shallow", "clone_into", "convert_same", "convert_other", "move_ctor", "move_assign"]
 MAT_INV = "RepValid MatConstraint MatComplement MatIdempotent FilteredSolve Emit"
+INTO_INV = "FilterOK IntoLaw ExactDomain ConstraintHolds ComplementHolds IdempotentHolds Emit"
+IO_ALL = ["clone_into_deep", "clone_into_weak", "clone_into_shallow", "convert_same", "convert_other", "move_assign"]
+IO_FEW = ["clone_into_deep", "clone_into_weak", "convert_same", "convert_other", "move_assign"]
+OPS_ALL = ["rhs", "sol", "def", "cor"]
+OPS_TWO = ["sol", "def"]          # unit: prescribed value / zero; mean: primal update with the prescribed mean / dual update
 
 
 # ----------------------------------------------------------------------------------------------
@@ -106,6 +114,35 @@ def vec_cfg(fam, minn, maxn, bs, depth, pal, lcs=0):
             "INVARIANTS %s\nCHECK_DEADLOCK FALSE\n" % (fam, minn, maxn, bs, depth, pal, lc, VEC_INV))
 
 
+def into_cfg(fam, minn, maxn, bs, depth, pal, tsz, ops, ios):
+    """life-cycle calls into an object that holds previous content (spec/FiltersInto.tla)"""
+    q = lambda xs: "{" + ", ".join('"%s"' % x for x in xs) + "}"
+    return ("SPECIFICATION Spec\nCONSTANTS Family = \"%s\" MinN = %d MaxN = %d BS = %d Depth = %d Pal = %d TSz = %d OpSel = %s IOs = %s\n"
+            "INVARIANTS %s\nCHECK_DEADLOCK FALSE\n" % (fam, minn, maxn, bs, depth, pal, tsz, q(ops), q(list(ios) + CAPS), INTO_INV))
+
+
+def into_configs(tier):
+    """(family, source sizes min..max, block size, depth, palette of the source, sizes of the previous content (0 same, 1 also one more,
+    2 all 0..max), operations applied afterwards, into-operations)"""
+    A, F, O4, O2 = IO_ALL, IO_FEW, OPS_ALL, OPS_TWO
+    # atoms: EVERY pair (previous index set / size / flag / weights, source) of the family
+    c = [("unit", 0, 3, 1, 1, 1, 2, O4, A), ("unit", 0, 2, 2, 1, 2, 2, O4, A), ("unit", 0, 2, 2, 1, 1, 2, O4, A), ("unit", 0, 2, 3, 1, 1, 2, O4, A),
+         ("slip", 0, 3, 2, 1, 1, 2, O4, A), ("slip", 0, 2, 3, 1, 2, 2, O4, A),
+         ("mean", 0, 3, 1, 1, 2, 2, O4, A), ("mean", 0, 2, 2, 1, 1, 2, O4, A), ("none", 0, 1, 1, 1, 1, 2, O4, A), ("none", 0, 1, 2, 1, 1, 2, O4, A),
+         # composed filters: every source x every previous content (per slot: an atom of any kind constraining everything, or nothing;
+         # sequences: 0..Depth entries, same / reordered / other names)
+         ("chain", 0, 2, 1, 2, 1, 0, O2, F), ("chain", 1, 1, 2, 2, 2, 1, O2, F),
+         ("seq", 2, 2, 1, 2, 1, 0, O2, F), ("seq", 2, 2, 2, 1, 2, 1, O2, F),
+         ("tuple", 0, 1, 2, 1, 1, 0, O2, F), ("power", 0, 2, 1, 1, 1, 0, O2, F)]
+    if tier == "thorough":
+        c += [("unit", 4, 4, 1, 1, 2, 2, O4, A), ("slip", 3, 3, 3, 1, 1, 2, O4, A), ("mean", 0, 3, 3, 1, 2, 2, O4, A),
+              ("chain", 2, 2, 2, 2, 1, 1, O4, A), ("chain", 0, 2, 1, 3, 2, 0, O2, F), ("chain", 1, 1, 3, 2, 1, 0, O4, A),
+              ("seq", 0, 1, 1, 2, 2, 1, O4, A), ("seq", 1, 1, 2, 2, 1, 0, O2, F), ("seq", 2, 2, 1, 3, 2, 0, ["sol"], ["clone_into_deep", "convert_same"]),
+              ("seq", 1, 1, 3, 1, 1, 1, O4, A),
+              ("tuple", 0, 1, 3, 1, 2, 1, O4, A), ("power", 0, 2, 1, 1, 2, 1, O4, A), ("nest", 0, 1, 2, 1, 1, 0, ["sol"], ["clone_into_weak", "convert_other", "move_assign"])]
+    return c
+
+
 def mat_cfg(fmt, maxm, maxn, square, bh, bw, comp, pal):
     return ("SPECIFICATION Spec\nCONSTANTS MFmt = \"%s\" MaxM = %d MaxN = %d SquareOnly = %s BH = %d BW = %d Comp = \"%s\" Pal = %d\n"
             "INVARIANTS %s\nCHECK_DEADLOCK FALSE\n" % (fmt, maxm, maxn, "TRUE" if square else "FALSE", bh, bw, comp, pal, MAT_INV))
@@ -169,6 +206,11 @@ def generate(chk, tier):
         with open(os.path.join(vlib.SPEC, name), "w") as f:
             f.write(mat_cfg(*a))
         jobs.append(("FiltersMat", name, "mat %s %dx%d sq=%s b%dx%d %s pal%d" % a))
+    for k, a in enumerate(into_configs(tier)):
+        name = "gen_FiltersInto_%d_%d.cfg" % (os.getpid(), k)
+        with open(os.path.join(vlib.SPEC, name), "w") as f:
+            f.write(into_cfg(*a))
+        jobs.append(("FiltersInto", name, "into %s n%d..%d bs%d depth%d pal%d tsz%d" % a[:7] + " ops=%s ios=%d" % ("".join(x[0] for x in a[7]), len(a[8]))))
     cases = []
     try:
         with cf.ThreadPoolExecutor(max_workers=min(len(jobs), 8)) as ex:
@@ -215,12 +257,24 @@ def nidx(f):
     return len(f.get("idx", []))
 
 
+def has_unsorted(f):
+    """a sub-filter with at least two indices: built by add() in descending order its inner sparse vector is unsorted until first use"""
+    if "fs" in f:
+        return any(has_unsorted(x) for x in f["fs"])
+    return len(f.get("idx", [])) >= 2
+
+
 def sig(c, r):
     s = {"filter": fkinds(c["f"]), "outcome": r.get("outcome", "mismatch"), "constrained": nidx(c["f"]) > 0}
     if "act" in c:
         s.update({"part": "matrix", "fmt": c["fmt"], "act": c["act"], "m": c["m"], "n": c["n"], "nnz": len(c["rep"]["ci"]),
                   "arrays": 0 if (len(c["rep"]["ci"]) == 0 and (c.get("arrays", 1) == 0 or c["m"] == 0 or c["n"] == 0)) else 1,
                   "bh": c["bh"], "bw": c["bw"]})
+    elif c.get("part") == "into":
+        m = re.search(r"/(m[01])/", r.get("why") or "")
+        s.update({"part": "into", "fam": c["fam"], "op": c["op"], "n": c["n"], "io": c["io"], "previous": fkinds(c["t0"]),
+                  "route": m.group(1) if m else "", "unsorted_source": has_unsorted(c["f"]),
+                  "who": "source" if "the source after the call" in (r.get("why") or "") else "target"})
     else:
         s.update({"part": "vector", "fam": c["fam"], "op": c["op"], "n": c["n"], "lc": c.get("lc", "none")})
     return s
@@ -229,25 +283,54 @@ def sig(c, r):
 def key(c):
     if "act" in c:
         return json.dumps(["m", c["fmt"], c["bh"], c["bw"], c["m"], c["n"], c["rep"], c["f"], c["act"], c.get("arrays", 1)])
+    if c.get("part") == "into":
+        return json.dumps(["i", c["fam"], c["t0"], c["nt"], c["f"], c["op"], c["n"], c["io"]])
     return json.dumps(["v", c["fam"], c["f"], c["op"], c["n"], c.get("lc", "none")])
 
 
 def nontrivial(c):
     if "act" in c:
         return nidx(c["f"]) > 0 and len(c["rep"]["ci"]) > 0
+    if c.get("part") == "into":
+        return c["differs"] and (c["v1"] != c["v0"] or nidx(c["t0"]) > 0)     # the previous content differs and something is at stake
     return c["v1"] != c["v0"]
 
 
+def builds():
+    """the two std replayers and the MPI replayer (separate build directories: side by side)"""
+    import concurrent.futures as cf
+    with cf.ThreadPoolExecutor(max_workers=2) as ex:
+        f1 = ex.submit(vlib.build, ["c06_filters", "c06_into"])
+        f2 = ex.submit(vlib.build, ["c06_gfilter"], "mpi")
+        (b_f, b_i), (b_g,) = f1.result(), f2.result()
+    return b_f, b_i, b_g
+
+
 def run(chk):
+    import concurrent.futures as cf
     CAPS[:] = detect_caps()
-    binary, = vlib.build(["c06_filters"])
+    b_f, b_i, b_g = builds()
     chk.extra["capabilities_of_tree"] = list(CAPS)
-    cases = expand(generate(chk, chk.tier))
-    if not cases:
-        raise vlib.MachineryError("generator produced no cases")
-    res = vlib.run_cases(binary, cases, tmo=20)
-    vlib.judge_results(chk, cases, res, sig, keyf=key, harness="c06_filters", nontrivial=nontrivial)
-    chk.traces = len(cases)
+    # the global part (TLC generation in its own small pool, MPI replays) runs beside the LAFEM part
+    with cf.ThreadPoolExecutor(max_workers=1) as gpart, cf.ThreadPoolExecutor(max_workers=3) as gex:
+        gfut = gpart.submit(c06_global.run, chk, b_g, gex)
+        allc = expand(generate(chk, chk.tier))
+        if not allc:
+            raise vlib.MachineryError("generator produced no cases")
+        cases = [c for c in allc if c.get("part") != "into"]
+        into = [c for c in allc if c.get("part") == "into"]
+        if not cases or not into:
+            raise vlib.MachineryError("generator produced no cases for one of the parts")
+        res = vlib.run_cases(b_f, cases, tmo=20)
+        vlib.judge_results(chk, cases, res, sig, keyf=key, harness="c06_filters", nontrivial=nontrivial)
+        res = vlib.run_cases(b_i, into, tmo=20)
+        vlib.judge_results(chk, into, res, sig, keyf=key, harness="c06_into", nontrivial=nontrivial)
+        nglobal = gfut.result()
+    chk.extra["into_behaviours"] = len(into)
+    chk.extra["into_behaviours_previous_content_differs"] = sum(1 for c in into if c["differs"])
+    chk.extra["into_pairs"] = len(set(json.dumps([c["t0"], c["nt"], c["f"], c["n"]], sort_keys=True) for c in into))
+    ninto = len(into)
+    chk.traces = len(cases) + ninto + nglobal
     chk.exhaustive = True
     nv = sum(1 for c in cases if "act" not in c)
     chk.extra["vector_behaviours"] = nv
@@ -263,24 +346,40 @@ def run(chk):
                 "filter_offdiag_row_mat made twice, CSR and BCSR block shapes 1x2,2x2,2x3,3x2, filtered solve on square CSR); each "
                 "behaviour replayed on the real classes for double/uint64 and (if certified exact) float/uint32, two construction "
                 "routes each; non-trivial = the first call changes the vector resp. a stored row is constrained; distinct = distinct "
-                "(filter value, operation, size / matrix arrays)")
-    for c in cases[len(cases) // 3: len(cases) // 3 + 2] + cases[-2:]:
-        chk.sample({k: c[k] for k in c if k in ("fam", "f", "op", "n", "den", "v0", "v1", "v2", "fmt", "act", "rep", "va1", "xs", "b1")})
+                "(filter value, operation, size / matrix arrays).  "
+                "INTO: every behaviour of spec/FiltersInto.tla - an object holding PREVIOUS content (atoms: every filter of the family over every size, "
+                "other values / flag / weights; composed: per slot an atom of any kind constraining every block, or nothing; sequences with 0..Depth "
+                "entries under the same / reordered / other names) x every source x clone(other, Deep|Weak|Shallow) / convert (same, other types) / "
+                "move assignment, then the operation twice; the target must impose exactly the constraints of the source (IntoLaw, and the property's "
+                "clauses in terms of the source); non-trivial = previous content differs from the source.  "
+                "GLOBAL: every behaviour of spec/Gen_FilterGlobal.tla - all decompositions rank -> dof set (1..4 ranks quick, ..6 thorough, local "
+                "renumberings) x Global::MeanFilter / Global::Filter<UnitFilter> / chains of both x rhs/sol/def/cor twice, replayed on real MPI ranks "
+                "through 13 life-cycle routes; non-trivial = a dof is shared between processes and the vector changes")
+    for c in cases[len(cases) // 3: len(cases) // 3 + 1] + cases[-1:] + [x for x in into if x["fam"] == "seq" and x["differs"]][ninto // 9: ninto // 9 + 1]:
+        chk.sample({k: c[k] for k in c if k in ("part", "fam", "io", "t0", "nt", "f", "op", "n", "den", "v0", "v1", "v2", "fmt", "act", "rep", "va1", "xs", "b1")})
     chk.assumptions = ["inputs lie in the exact (dyadic) domain: integer vectors, normals with |nu|^2 in {1,2,4}, mean volumes p.d a power of two; "
                        "rounding behaviour for general normals/weights is not explored (DESIGN.md sec. 7 residue)",
                        "mean filters are built with volume = p.d (the documented meaning of the volume argument)",
-                       "Global::Filter / Global::MeanFilter wrappers (need gates/communication) are not exercised here",
+                       "global filters: sharer counts that are not powers of two (1/3, 1/5, 1/6 frequencies) are compared within 64 eps * magnitude "
+                       "(magnitude from the specification), all others bit-exactly",
                        "constrained matrix rows without a stored diagonal entry are required to become null rows and are excluded from the solve guarantee (DESIGN.md decision rule)"]
 
 
 def replay(obj):
     CAPS[:] = detect_caps()
-    binary, = vlib.build(["c06_filters"])
-    cases = [v["replay"]["case"] for v in obj["violations"] if v["replay"] and v["replay"].get("kind") == "case"]
-    res = vlib.run_cases(binary, cases, tmo=20, shards=1)
+    b_f, b_i, b_g = builds()
     bad = 0
-    for c, r in zip(cases, res):
-        print(json.dumps({"case": sig(c, r), "result": r})[:1000])
+    for v in obj["violations"]:
+        rp = v["replay"]
+        if not rp or rp.get("kind") != "case":
+            continue
+        c = rp["case"]
+        if rp.get("harness") == "c06_gfilter":
+            r = vlib.run_cases(b_g, [c], tmo=30, shards=1, wrapper=c06_global.MPIRUN + [str(c["nr"])])[0]
+            print(json.dumps({"case": c06_global.sig(c, r), "result": r})[:1000])
+        else:
+            r = vlib.run_cases(b_i if rp.get("harness") == "c06_into" else b_f, [c], tmo=20, shards=1)[0]
+            print(json.dumps({"case": sig(c, r), "result": r})[:1000])
         if r.get("ok") is not True:
             bad += 1
     return 1 if bad else 0
